@@ -77,7 +77,7 @@ theorem cycleOk_distribute (n : Nat) (rad : List Nat) (cy : Cycle) (ps : List In
     unfold Op.WF at this ⊢
     rw [e1, e2]; exact this
 
-theorem indep_symm {a b : Op} (h : Indep a b) : Indep b a := fun q hq hqa => h q hqa hq
+theorem indep_symm_op {a b : Op} (h : Indep a b) : Indep b a := fun q hq hqa => h q hqa hq
 
 theorem cycleOk_sortBy (n : Nat) (rad : List Nat) (cy : Cycle) (h : CycleOk n rad cy) :
     CycleOk n rad (sortBy Op.head cy) := by
@@ -88,7 +88,7 @@ theorem cycleOk_sortBy (n : Nat) (rad : List Nat) (cy : Cycle) (h : CycleOk n ra
     have := hperm.length_eq
     rw [he] at this
     exact h1 (List.eq_nil_of_length_eq_zero this.symm)
-  · exact (hperm.pairwise_iff (fun {a b} h => indep_symm h)).2 h2
+  · exact (hperm.pairwise_iff (fun {a b} h => indep_symm_op h)).2 h2
 
 theorem distCycles_ok (n : Nat) (rad : List Nat) (l : List Cycle) (ps : List Int)
     (h : ∀ cy ∈ l, CycleOk n rad cy) : ∀ cy ∈ distCycles l ps, CycleOk n rad cy := by
@@ -284,12 +284,17 @@ theorem appendCircuit_eq (c sub : Circ) (loc : List Nat) (h : sub.numQudits = lo
   rw [this, List.foldl_map]
   rfl
 
+theorem resolveCycle_nat (c : Circ) (k : Nat) : c.resolveCycle (k : Int) = (k : Int) := by
+  unfold Circ.resolveCycle
+  rw [if_neg (by omega), if_neg (by omega)]
+
 theorem insertCircuit_eq_ge (c sub : Circ) (loc : List Nat) (k : Nat)
     (h : sub.numQudits = loc.length) (hk : c.numCycles ≤ k) :
     c.insertCircuit (k : Int) sub loc = c.appendCircuit sub loc := by
   unfold Circ.insertCircuit
   have h1 : (sub.numQudits != loc.length) = false := by simp [h]
   have h2 : ((k : Int) ≥ (c.numCycles : Int)) := by omega
+  simp only [resolveCycle_nat]
   rw [h1]; simp only [Bool.false_eq_true, if_false, h2, if_true]
 
 theorem insertCircuit_eq_lt (c sub : Circ) (loc : List Nat) (k : Nat)
@@ -299,6 +304,7 @@ theorem insertCircuit_eq_lt (c sub : Circ) (loc : List Nat) (k : Nat)
   unfold Circ.insertCircuit
   have h1 : (sub.numQudits != loc.length) = false := by simp [h]
   have h2 : ¬ ((k : Int) ≥ (c.numCycles : Int)) := by omega
+  simp only [resolveCycle_nat]
   rw [h1]; simp only [Bool.false_eq_true, if_false, h2]
   rw [List.foldl_map]
   rfl
